@@ -467,6 +467,15 @@ def compare(ctx, label, obs, a, b, live_fit, has_fit, minimizer, detail, key=Non
         ok = a[0] == b[0]
         ctx.check(label + ".outcome-class", ok, lambda: dict(detail, a=a, b=b))
         return ok
+    if has_fit and a[0] == "ok" and b[0] == "ok" and obs in ("parameter_errors", "parameter_cov_mat", "parameter_cor_mat"):
+        try:
+            va, vb = np.asarray(a[1], dtype=float), np.asarray(b[1], dtype=float)
+            if va.shape == vb.shape and not (np.all(np.isfinite(va)) and np.all(np.isfinite(vb))):
+                # a numerical Hessian that is not positive definite (degenerate minimum): its entries are rounding noise on either side
+                ctx.discard("postfit-uncertainties-not-finite-degenerate-minimum")
+                return True
+        except Exception:
+            pass
     if has_fit and a[0] == "ok" and b[0] == "ok" and obs in ("parameter_values",):
         try:
             sig = np.array(live_fit.parameter_errors, dtype=float)
